@@ -34,18 +34,57 @@ func runGCommit(c *Ctx) {
 		"Overlap: a Merge blocked inside a store call (iterator, CreateFile, Read, Write, Close, Update, TombstoneFile) while a second Merge is called. Non-trivial: a fault was hit or calls overlapped."
 	sh := c.newShard("g13", runnerG, "caseG", "mismatches", "violations13")
 	sh.prelude = gPrelude
-	sh.limit = 40
-	nMem := c.pick(6, 60)
-	nFs := c.pick(2, 12)
+	sh.limit = 110
+	nMem := c.pick(12, 80)
+	nFs := c.pick(4, 16)
 	for s := 0; s < nMem; s++ {
 		gCommitScenario(c, sh, s, false)
 	}
 	for s := 0; s < nFs; s++ {
 		gCommitScenario(c, sh, nMem+s, true)
 	}
+	for s := 0; s < c.pick(6, 40); s++ {
+		gNothingScenario(c, sh, 1000+s)
+	}
 	for s := 0; s < c.pick(12, 80); s++ {
 		gSingleFlight(c, sh, s)
 	}
+}
+
+// gNothingScenario: stores on which Merge has nothing to do (no file, one file, or limits that
+// let nobody join): it must return (stats, nil) after draining the iterator, without any other call.
+func gNothingScenario(c *Ctx, sh *shard, scen int) {
+	fsKind := c.chance(0.3)
+	st := gNewStores(c, fsKind, fmt.Sprintf("n%d", scen))
+	defer st.cleanup()
+	pop := gNewPop(c)
+	lim := gLimits{rows: 1000, bytes: 1 << 30, fileSize: 1 << 40, files: 10}
+	switch c.intn(4) {
+	case 0: // empty store
+	case 1:
+		pop.writeFiles(c, st.meta, st.data, c.gGenWriterCfg(), 1, 4, 0)
+	case 2:
+		for w := 0; w < 3; w++ {
+			pop.writeFiles(c, st.meta, st.data, c.gGenWriterCfg(), 1, 4, 0)
+		}
+		lim.fileSize = 1
+	default:
+		for w := 0; w < 3; w++ {
+			pop.writeFiles(c, st.meta, st.data, c.gGenWriterCfg(), 1, 4, 0)
+		}
+		lim.rows = 1 // every block already holds a row: no pair fits
+	}
+	cfg := lim.engineConfig(c)
+	run := gRunMerge(st, cfg, newGPtrTable(), nil, true, 1)
+	if run.stats == nil || run.err != nil {
+		c.violation("c13-nothing-to-merge-error", fmt.Sprintf("Merge with nothing to merge returned stats=%v err=%v", run.stats != nil, run.err), nil)
+	}
+	for _, cl := range run.calls {
+		if cl.Kind != "Iter" {
+			c.violation("c13-nothing-to-merge-store-call", "Merge with nothing to merge made a store call: "+cl.Kind, nil)
+		}
+	}
+	gCheckRun(c, sh, scen, 0, fsKind, cfg, pop, run, nil)
 }
 
 // ---------------------------------------------------------------- stores of one run
@@ -472,13 +511,13 @@ func gCommitScenario(c *Ctx, sh *shard, scen int, fsKind bool) {
 	for _, kind := range []string{"Iter", "CreateFile", "OpenFile", "Read", "Write", "Close", "Update", "Tombstone"} {
 		n := counts[kind]
 		pos := map[int]bool{}
-		if n <= c.pick(5, 40) {
+		if n <= c.pick(7, 40) {
 			for i := 0; i < n; i++ {
 				pos[i] = true
 			}
 		} else {
 			pos[0], pos[n-1] = true, true
-			for len(pos) < c.pick(5, 40) {
+			for len(pos) < c.pick(7, 40) {
 				pos[c.intn(n)] = true
 			}
 		}
@@ -834,16 +873,28 @@ func gSingleFlight(c *Ctx, sh *shard, scen int) {
 	}
 	// the first Merge is inside a store call: overlapping calls, from this and another goroutine
 	nCallsBefore := len(fs.snapshotCalls())
-	r2 := call(2)
-	done3 := make(chan res, 1)
-	go func() { done3 <- call(3) }()
-	r3 := <-done3
-	nCallsAfter := len(fs.snapshotCalls())
-	for i, r := range []res{r2, r3} {
-		if !errors.Is(r.err, bs.ErrMergeInProgress) || r.stats != nil {
-			c.violation("c13-overlap-not-refused", fmt.Sprintf("overlapping Merge #%d returned stats=%v err=%v instead of ErrMergeInProgress", i+2, r.stats != nil, r.err), desc)
+	overlap := func(cid int) (res, bool) {
+		ch := make(chan res, 1)
+		go func() { ch <- call(cid) }()
+		select {
+		case r := <-ch:
+			return r, true
+		case <-time.After(5 * time.Second):
+			return res{}, false
 		}
 	}
+	for _, cid := range []int{2, 3} {
+		r, returned := overlap(cid)
+		if !returned {
+			c.violation("c13-overlap-blocked", fmt.Sprintf("overlapping Merge #%d did not return while the first Merge was inside %s", cid, blockKind), desc)
+			close(release)
+			return
+		}
+		if !errors.Is(r.err, bs.ErrMergeInProgress) || r.stats != nil {
+			c.violation("c13-overlap-not-refused", fmt.Sprintf("overlapping Merge #%d returned stats=%v err=%v instead of ErrMergeInProgress", cid, r.stats != nil, r.err), desc)
+		}
+	}
+	nCallsAfter := len(fs.snapshotCalls())
 	if nCallsAfter != nCallsBefore {
 		c.violation("c13-overlap-store-call", fmt.Sprintf("%d store calls were made while the first Merge was blocked", nCallsAfter-nCallsBefore), desc)
 	}
